@@ -87,8 +87,8 @@ def base_terms():
     u = ("vec", "u", 6)
     R = ("mat", "R", 1, 4)
     out.append(("views", [("vsum", ("slice", u, 0, 6, 2)), ("vsum", ("slice", u, 0, 6, 3)), ("lincomb", [("sym", "k0"), 2.0], ("mrowpart", R, 0, (0, 2, None))),
-                          ("vsum", ("mrowpart", R, 0, (2, 4, None))), ("norm", ("slice", u, 1, 6, 2), 1), ("norm", ("slice", u, 1, 6, 4), 2)]))
-    out.append(("views2", [("norm", ("slice", u, 0, 6, 3), 2), ("norm", ("slice", u, 0, 6, 2), 2), K.X, ("lincomb", [1.0, ("sym", "k0")], ("slice", u, 1, 6, 4)),
+                          ("vsum", ("mrowpart", R, 0, (2, 4, None))), ("vsum", ("vpow", ("slice", u, 1, 6, 2), 2)), ("dot", ("slice", u, 1, 6, 4), ("slice", u, 1, 6, 4))]))
+    out.append(("views2", [("norm", ("slice", u, 0, 6, 3), 1), ("norm", ("slice", u, 0, 6, 2), 1), K.X, ("lincomb", [1.0, ("sym", "k0")], ("slice", u, 1, 6, 4)),
                            ("lincomb", [3.0, 1.0, 2.0], ("slice", u, 1, 6, 2)), ("vsum", ("slice", u, 0, 6, 5))]))
     return out
 
@@ -97,7 +97,7 @@ def small_recipes(tier):
     out = []
     rich = {"x", "sin", "node0", "param", "constfirst", "views", "views2"}
     for tag, terms in base_terms():
-        for op in ("+", "-", "*", "/"):
+        for op in (("+", "-") if tag.startswith("views") else ("+", "-", "*", "/")):
             sizes = (2, 3, 6) if (op in ("+", "-") or tag in rich or tier == "thorough") else (2, 3)
             for n in sizes:
                 for assoc in ("left", "right", "balanced"):
@@ -174,6 +174,18 @@ def observe(recipe, val, th):
 
 def used(recipe):
     names = free_names(recipe)
+    # which names FLOW into the value (a slice of a declared vector mentions only its own elements): a name-set valued
+    # run of the reference formula; falls back to the names the reference interpreter reads
+    try:
+        from vf.props.c16 import NameSet
+        nv = {n: NameSet([n]) for n in names["vars"]}
+        for n in names["syms"] + names["params"]:
+            nv[n] = NameSet()
+        v = Ref(nv, 0).S(recipe)
+        if isinstance(v, NameSet):
+            return sorted(v.n)
+    except Exception:  # noqa: BLE001
+        pass
     val = {n: 1.0 for n in names["vars"] + names["syms"] + names["params"]}
     r = Ref(val, 0)
     r.S(recipe)
